@@ -12,7 +12,7 @@ def consts(**kw):
         "Transports": "<- TStream", "Flavors": "<- BothFlavors", "Verifies": "<- GateBoth",
         "WritePolicy": '= "write_all"', "UdpPolicy": '= "buffered"', "PongPolicy": '= "cancel_safe"',
         "MaxErr": "= 0", "MaxPending": "= 0", "MaxCancel": "= 0", "MaxTimeout": "= 0",
-        "MaxWrites": "= 0", "WLens": "<- None", "FrameOK": "<- FrameAny", "KeepHist": "= TRUE", "MaxQueued": "= 2", "Truncation": "= FALSE",
+        "MaxWrites": "= 0", "WLens": "<- None", "FrameOK": "<- FrameAny", "KeepHist": "= TRUE", "MaxQueued": "= 2", "Truncation": "= FALSE", "WriteFailures": "= FALSE",
         "EmSmallFills": "= 3", "EmSizes": "<- S13458", "EmPong": "<- None", "EmWacc": "<- None",
     }
     c.update(kw)
@@ -224,7 +224,7 @@ def check_C07(chk):
     """Keep-alives answered exactly once, and only they."""
     thorough = chk.tier == "thorough"
     chk.rule = ("TLC explores keep-alive / other-TINY / other frames in every order and segmentation with a transport that "
-                "accepts the reply in any pieces, checking PongsOk / NoPartialPong; behaviours are replayed on both Framed "
+                "accepts the reply in any pieces - or fails the write - checking PongsOk / NoPartialPong; behaviours are replayed on both Framed "
                 "flavours (any write the model does not do is a mismatch); a deterministic sweep feeds all 30x256 TINY "
                 "(sub-type, request id) pairs and one frame of every other kind and Trace_Conn validates the recorded writes.")
     mc(chk, "c07_pong", consts(MaxFrames="= 3", Classes="<- ClsPong", Verifies="<- GateOn", MaxPending="= 1" if thorough else "= 0"),
@@ -234,6 +234,12 @@ def check_C07(chk):
     nd, n = emit(chk, "c07_emit", consts(MaxFrames="= 3", Classes="<- ClsPong", Verifies="<- GateOn", FrameOK="<- FrameReal",
                                          EmSmallFills="= 1", EmSizes="<- S134", EmPong="<- S13"))
     replay(chk, nd, chk.seed)
+    # the transport fails the write of the reply (at once or after 1..3 of its bytes): read() must report the error, never
+    # hand out the keep-alive as if it had been answered
+    mc(chk, "c07_wfail", consts(MaxFrames="= 2", Classes="<- ClsPong", Verifies="<- GateOn", WriteFailures="= TRUE"), needs=("PongFail",))
+    nd, n = emit(chk, "c07_emit_wfail", consts(MaxFrames="= 2", Classes="<- ClsPong", Verifies="<- GateOn", FrameOK="<- FrameReal",
+                                               WriteFailures="= TRUE", EmSmallFills="= 0", EmPong="<- S13"))
+    replay(chk, nd, chk.seed + 2)
     p = os.path.join(WORK, "c07_sweep.ndjson")
     out = harness(["conn-sweep", "--what", "tiny", "--out", p, "--seed", str(chk.seed), "--half", "0" if thorough else "1"])
     chk.extra["sweep"] = json.loads(out.strip().splitlines()[-1])
